@@ -27,6 +27,11 @@ const (
 	CtrlNoFault    CtrlFaultMode = ""
 	CtrlFailBefore CtrlFaultMode = "before" // error, statement has no effect
 	CtrlFailAfter  CtrlFaultMode = "after"  // statement takes effect, error returned
+	// Kill modes: the process is killed at the statement. The call never returns (the calling
+	// goroutine is parked forever, so no deferred function and no error path of the caller runs);
+	// the fake signals Parked() and the harness goes on with a restart on the same catalogue.
+	CtrlKillBefore CtrlFaultMode = "kill-before" // statement has no effect
+	CtrlKillAfter  CtrlFaultMode = "kill-after"  // statement took effect
 )
 
 // ErrCtrlInjected is the error returned for injected faults.
@@ -65,6 +70,38 @@ type CtrlConn struct {
 	// AfterApply, if set, is called after a statement changed the catalogue (history invariants).
 	AfterApply func(c *CtrlCall, cat *CtrlCatalog)
 	closed     int
+	parked     chan *CtrlCall
+}
+
+// Parked delivers the call at which a kill-mode fault parked its goroutine.
+func (c *CtrlConn) Parked() <-chan *CtrlCall {
+	c.mu.Lock()
+	defer c.mu.Unlock()
+	if c.parked == nil {
+		c.parked = make(chan *CtrlCall, 16)
+	}
+	return c.parked
+}
+
+// park never returns. c.mu must be held; it is released first (the deferred unlock of the
+// caller never runs because the goroutine never resumes).
+func (c *CtrlConn) park(call *CtrlCall) {
+	call.Err = "killed"
+	if c.parked == nil {
+		c.parked = make(chan *CtrlCall, 16)
+	}
+	ch := c.parked
+	c.mu.Unlock()
+	ch <- call
+	select {}
+}
+
+// Discard drops the catalogue and the call log (end of a case): goroutines parked by kill-mode
+// faults keep a reference to the connection for the life of the process.
+func (c *CtrlConn) Discard() {
+	c.mu.Lock()
+	c.Cat, c.calls, c.Decide, c.AfterApply, c.FaultErr = NewCtrlCatalog(""), nil, nil, nil, nil
+	c.mu.Unlock()
 }
 
 var _ driver.Conn = (*CtrlConn)(nil)
@@ -191,6 +228,9 @@ func (c *CtrlConn) begin(query string, args []any, isQuery bool) (*CtrlCall, err
 	if c.Decide != nil {
 		call.Fault = c.Decide(call)
 	}
+	if call.Fault == CtrlKillBefore {
+		c.park(call)
+	}
 	if call.Fault == CtrlFailBefore {
 		e := c.faultErr(call)
 		call.Err = e.Error()
@@ -226,6 +266,9 @@ func (c *CtrlConn) Exec(ctx context.Context, query string, args ...any) error {
 		if c.AfterApply != nil {
 			c.AfterApply(call, c.Cat)
 		}
+	}
+	if call.Fault == CtrlKillAfter {
+		c.park(call)
 	}
 	if call.Fault == CtrlFailAfter {
 		e := c.faultErr(call)
@@ -303,6 +346,9 @@ func (c *CtrlConn) Query(ctx context.Context, query string, args ...any) (driver
 		return nil, e
 	}
 	call.Applied = true
+	if call.Fault == CtrlKillAfter {
+		c.park(call)
+	}
 	if call.Fault == CtrlFailAfter {
 		e := c.faultErr(call)
 		call.Err = e.Error()
